@@ -477,6 +477,9 @@ func (p *Program) verifyFunction(key string) *FuncResult {
 					var wconj []string
 					for ri, r := range g.rets {
 						w, err := g.elabBool(f.When, envs[ri])
+						if err != nil && strings.Contains(err.Error(), "unknown name") {
+							w, err = "false", nil // the witness names a local that does not exist on this return path
+						}
 						if err != nil {
 							g.contractError(cl, fmt.Errorf("finding %s: %v", f.ID, err))
 							okSplit = false
